@@ -552,3 +552,17 @@ Print Assumptions C04_alpha_init.
 Print Assumptions C04_inv_checker_sound.
 Print Assumptions C04_ex_sax_admits.
 Print Assumptions C04_ex_hb_print_edge.
+
+(* The substitution / copy code the run-time steps are made of, TRANSLATED from the current
+   process/form.go on this run (gen/FormOps.v; see props/C14.v for the full list): what the code says
+   now is the model the theorems above are about. *)
+Require Grits.Subst Grits.FormIR Grits.gen.FormOps Grits.proofs.FormOpsAgree.
+Theorem C04_formops_subst_agrees : forall old new f, FormIR.ir_subst FormOps.table old new f = Subst.subst old new f.
+Proof. exact FormOpsAgree.formops_subst_agrees. Qed.
+Theorem C04_formops_copy_wf : FormIR.copy_table_ok FormOps.table = true.
+Proof. exact FormOpsAgree.formops_copy_wf. Qed.
+Theorem C04_formops_copy_agrees : forall f, FormIR.ir_copy FormOps.table f = FormIR.copy_norm f.
+Proof. exact FormOpsAgree.formops_copy_agrees. Qed.
+Print Assumptions C04_formops_subst_agrees.
+Print Assumptions C04_formops_copy_wf.
+Print Assumptions C04_formops_copy_agrees.
